@@ -4,6 +4,7 @@ MANIFEST.json and never report under a listed property id.
 
 X01  specs/extras/FieldSetRegistry.tla   FieldSet registry / digest / merge
 X02  specs/extras/ThrustModes.tla        ThrustModeValues frozen / mutable machine
+X03  specs/extras/TrajectoryPhases.tla   Trajectory flight-phase machine (set_phase / append / copy / interpolate)
 """
 
 from __future__ import annotations
@@ -136,6 +137,79 @@ def run_thrust(hist):
         return [('machinery', f'{type(e).__name__}: {e}\n{traceback.format_exc()}')]
 
 
+def run_phases(hist):
+    """One TrajectoryPhases.tla behaviour on a real Trajectory (the walk continues on copies)."""
+    warnings.simplefilter('ignore')
+    try:
+        import contextlib
+        import io
+
+        from AEIC.storage import Dimension, FlightPhase
+        from AEIC.trajectories.trajectory import BASE_FIELDS, Trajectory
+
+        names = [n for n, f in BASE_FIELDS.items() if Dimension.POINT in f.dimensions]
+        used = {1: 'n_idle_origin', 4: 'n_climb', 5: 'n_cruise', 6: 'n_descent'}
+        t = Trajectory()
+        done = []
+        for k, e in enumerate(hist):
+            op, a, b, want = e['op'], e['a'], e['b'], e['res']
+            try:
+                if op == 'set_phase':
+                    try:
+                        t.set_phase(FlightPhase(a))
+                        got = 'ok'
+                    except ValueError:
+                        got = 'earlier'
+                elif op == 'append':
+                    try:
+                        t.append(**{n: float(a) for n in names})
+                        got = 'ok'
+                    except ValueError as ex:
+                        got = 'fixed' if 'fixed-size' in str(ex) else f'ValueError: {ex}'
+                elif op == 'fix':
+                    t.fix()
+                    got = 'ok'
+                elif op == 'copy_point':
+                    try:
+                        with contextlib.redirect_stdout(io.StringIO()):
+                            t.copy_point(a, b)
+                        got = 'ok'
+                    except IndexError:
+                        got = 'range'
+                elif op == 'copy':
+                    t = t.copy()
+                    got = 'ok'
+                elif op == 'interp':
+                    ft = t.flight_time
+                    t = t.interpolate_time((ft[:-1] + ft[1:]) / 2)
+                    got = 'ok'
+                elif op == 'counts':
+                    got = {str(p): int(getattr(t, f)) for p, f in used.items()}
+                    want = {str(p): int(v) for p, v in (want.items() if isinstance(want, dict) else enumerate(want, 1))}
+                    other = {f.name: int(getattr(t, f.field_name)) for f in FlightPhase if int(f) not in used and int(getattr(t, f.field_name)) != 0}
+                    if other:
+                        got = f'unnamed phases counted: {other}'
+                elif op == 'points':
+                    vals = [float(x) for x in t.flight_time]
+                    same = all([float(x) for x in getattr(t, n)] == vals for n in names)
+                    got = [int(v) for v in vals] if same and all(v == int(v) for v in vals) and len(vals) == len(t) else f'fields disagree or non-integral: {vals}'
+                    want = [int(v) for v in want]
+                else:
+                    raise MachineryError(f'unknown op {op}')
+            except MachineryError:
+                raise
+            except Exception as ex:
+                got = f'raised {type(ex).__name__}: {ex}'
+            done.append((op, a, b, got))
+            if got != want:
+                return [(f'phases:{op}:{str(want)[:20]}->{str(got).split(":")[0][:30]}', f'operation {k} {op}({a}, {b}) gave {got!r}; specification: {want!r}; history {done}')]
+        return []
+    except Exception as e:
+        import traceback
+
+        return [('machinery', f'{type(e).__name__}: {e}\n{traceback.format_exc()}')]
+
+
 def _replay(ctx, hists, fn, label):
     ctx.log(f'{label}: {len(hists)} behaviours')
     for h, devs in zip(hists, pmap(fn, hists)):
@@ -167,4 +241,14 @@ def run_x02(ctx: Ctx):
     _replay(ctx, hs, run_thrust, 'thrustmodes')
 
 
-EXTRAS = {'X01': run_x01, 'X02': run_x02}
+def run_x03(ctx: Ctx):
+    ctx.rule = 'every TrajectoryPhases.tla behaviour of length 3 + weighted random walks of length 16 (set_phase / append / fix / copy_point / copy / interpolate_time, counts and point values read back)'
+    ctx.assumptions += ['not a listed property: specification growth (DESIGN.md section 10)', 'phases named by the walk: idle at origin, climb, cruise, descent; all other phase counts must stay 0', 'interpolation at the midpoints of consecutive flight times only']
+    tlc.check(ctx, 'extras/TrajectoryPhases', 'extras/MC_TrajectoryPhases.cfg', workers=8)
+    hs = tlc.check(ctx, 'extras/TrajectoryPhases', 'extras/Gen_TrajectoryPhases.cfg', workers=4)['emitted']
+    hs += tlc.check(ctx, 'extras/TrajectoryPhases', 'extras/Sim_TrajectoryPhases.cfg', workers=1, simulate=f'num={400 if ctx.quick else 6000}', depth=20, seed=ctx.seed)['emitted']
+    ctx.exhaustive = True
+    _replay(ctx, hs, run_phases, 'phases')
+
+
+EXTRAS = {'X01': run_x01, 'X02': run_x02, 'X03': run_x03}
